@@ -423,15 +423,44 @@ def translate(sc, res, trace):
 A_MODE = {"C01": "laxall", "C02": "laxall", "C14": "laxall", "C07": "laxtime"}
 
 
+def flat_ties(traces, res, drv):
+    """C10 (d): the requirement relation of the flattened twin that `dyn_gen.flatten_variant` built and ran is the one
+    the theorem `flatten_same_times` speaks about: `AJ.Flat.flatReq` of the nested configuration, computed by the
+    driver (component `flatreq`)"""
+    pairs = [(traces[i][0], traces[i + 1][0]) for i in range(len(traces) - 1) if traces[i + 1][0].get("twin_of_prev")]
+    lines, keep = [], []
+    for sc, flat in pairs:
+        ids, order = assign_ids(sc)
+        lines.append("flatreq %s" % cfg_tokens(sc, ids, order))
+        keep.append((sc, flat, ids))
+    if not lines:
+        return
+    for (sc, flat, ids), out in zip(keep, drv.ask(lines)):
+        res.count("flatreq")
+        name = {v: k for k, v in ids.items()}
+        mine = {k["name"]: sorted(set(k["req"])) for k in flat["tree"]["children"]}
+        if not out.startswith("ok"):
+            res.mismatches.append(("flatreq", {"kind": "scenario", "scenario": sc}, "flattened by the harness: %s" % mine, out[:300]))
+            continue
+        model = {}
+        for item in out[3:].split(";"):
+            if item:
+                j, _, rs = item.partition(":")
+                model[name[int(j)]] = sorted(name[int(r)] for r in rs.split(",") if r)
+        if model != mine:
+            res.mismatches.append(("flatreq", {"kind": "scenario", "scenario": sc}, "harness twin %s" % mine, "model flatReq %s" % model))
+
+
 def replay_all(pid, traces, res, drv):
     """traces: list of (scenario, result, trace). Adds the correspondence differences that matter for `pid`
     to res.mismatches; the others are counted in res.dist["irrelevant_differences"]."""
     layers, relevant = RELEVANT[pid]
     lines, cases = [], []
     for sc, r, trace in traces:
-        if sc.get("cancel_top") is not None or sc.get("busy"):
+        if sc.get("cancel_top") is not None or sc.get("busy") or sc.get("strict_out"):
             # a top-level run cancelled from outside, or time passing while the loop is busy (the model's clock only
-            # advances in quiet states: assumption A2), are not events of the model: judged by the oracles only
+            # advances in quiet states: assumption A2), or a verbose message that the standard output cannot encode (an
+            # exception out of the orchestration itself), are not events of the model: judged by the oracles only
             res.dist["not_replayed"] = res.dist.get("not_replayed", 0) + 1
             continue
         try:
